@@ -338,6 +338,107 @@ theorem C11_union_assoc (a b c : Rect) (ha : a.WF) (hb : b.WF) (hc : c.WF) (hab 
   simp only [Res.rect.injEq, Rect.mk.injEq, true_and]
   omega
 
+/-! ### whole rows and columns as operands ("exactly the common cells", an unbounded side read as 1..MAX)
+
+  `A:C` is stored with rows 0, `1:3` with columns 0.  The pinned code added the size MAX to the corner 0, so every
+  result stopped one short of the last column / row (`1:1 & XFD1` was #NULL!); repaired in /repo (fix: commit), the
+  model follows the repaired code. -/
+
+/-- the cells an address denotes on the sheet: an unbounded side spans 1..MAX_COL / 1..MAX_ROW -/
+def Rect.covers (a : Rect) (c : Cell) : Bool := a.span.contains c
+
+/-- for a bounded rectangle this is plain containment -/
+theorem C11_covers_bounded (a : Rect) (h : a.WF) (c : Cell) : a.covers c = a.contains c := by
+  unfold Rect.covers; rw [span_of_wf a h]
+
+/-- `C11_inter_spec` for operands with unbounded rows and/or columns: the result is a bounded rectangle holding
+    exactly the cells denoted by both operands; #NULL! iff they denote no common cell -/
+theorem C11_inter_spec_unbounded (a b : Rect) (ha : a.GWF) (hb : b.GWF) (hs : a.sheet = b.sheet) :
+    match a.inter b with
+    | .rect r => r.WF ∧ r.sheet = a.sheet ∧ ∀ c, r.contains c = (a.covers c && b.covers c)
+    | .null => ∀ c, ¬ (a.covers c = true ∧ b.covers c = true)
+    | .value => False := by
+  rw [inter_span a b ha hb]
+  exact C11_inter_spec a.span b.span (span_wf a ha) (span_wf b hb) hs
+
+theorem C11_inter_cells_unbounded (a b r : Rect) (ha : a.GWF) (hb : b.GWF) (hs : a.sheet = b.sheet)
+    (h : a.inter b = .rect r) (c : Cell) : c ∈ r.cells ↔ c ∈ a.span.cells ∧ c ∈ b.span.cells := by
+  rw [inter_span a b ha hb] at h
+  exact C11_inter_cells a.span b.span r (span_wf a ha) (span_wf b hb) hs h c
+
+/-- union with unbounded operands: a bounded rectangle covering both, least among rectangles covering both -/
+theorem C11_union_bounding_unbounded (a b : Rect) (ha : a.GWF) (hb : b.GWF) (hs : a.sheet = b.sheet) :
+    ∃ r, a.union b = .rect r ∧ r.WF ∧ r.sheet = a.sheet ∧
+      (∀ c, a.covers c = true → r.contains c = true) ∧ (∀ c, b.covers c = true → r.contains c = true) ∧
+      (∀ s : Rect, (∀ c, a.covers c = true → s.contains c = true) → (∀ c, b.covers c = true → s.contains c = true) →
+        ∀ c, r.contains c = true → s.contains c = true) := by
+  obtain ⟨r, e, w, sh, h1, h2⟩ := C11_union_bounding a.span b.span (span_wf a ha) (span_wf b hb) hs
+  refine ⟨r, by rw [union_span a b ha hb]; exact e, w, sh, h1, h2, ?_⟩
+  intro s hsa hsb
+  exact C11_union_least a.span b.span s r (span_wf a ha) (span_wf b hb) hs e hsa hsb
+
+theorem C11_inter_comm_unbounded (a b : Rect) (ha : a.GWF) (hb : b.GWF) (hs : a.sheet = b.sheet) :
+    a.inter b = b.inter a ∧ a.union b = b.union a := by
+  rw [inter_span a b ha hb, inter_span b a hb ha, union_span a b ha hb, union_span b a hb ha]
+  exact ⟨C11_inter_comm _ _ (span_wf a ha) (span_wf b hb) hs, C11_union_comm _ _ (span_wf a ha) (span_wf b hb) hs⟩
+
+/-- idempotent up to notation: `1:3 & 1:3` is the bounded rectangle `A1:XFD3` denoting the same cells -/
+theorem C11_inter_idem_unbounded (a : Rect) (ha : a.GWF) : a.inter a = .rect a.span ∧ a.union a = .rect a.span := by
+  rw [inter_span a a ha ha, union_span a a ha ha]
+  exact ⟨C11_inter_idem _ (span_wf a ha), C11_union_idem _ (span_wf a ha)⟩
+
+/-- associativity with unbounded operands (the intermediate results are bounded rectangles) -/
+theorem C11_inter_assoc_unbounded (a b c : Rect) (ha : a.GWF) (hb : b.GWF) (hc : c.GWF) (hab : a.sheet = b.sheet)
+    (hbc : b.sheet = c.sheet) :
+    (a.inter b).andThen (fun r => r.inter c) = (b.inter c).andThen (fun r => a.inter r) := by
+  have hl : ∀ r : Rect, r.WF → r.inter c = r.inter c.span := by
+    intro r hr; rw [inter_span r c (wf_gwf r hr) hc, span_of_wf r hr]
+  have hr' : ∀ r : Rect, r.WF → a.inter r = a.span.inter r := by
+    intro r hr; rw [inter_span a r ha (wf_gwf r hr), span_of_wf r hr]
+  have s1 := C11_inter_spec a.span b.span (span_wf a ha) (span_wf b hb) hab
+  have s2 := C11_inter_spec b.span c.span (span_wf b hb) (span_wf c hc) hbc
+  have key := C11_inter_assoc a.span b.span c.span (span_wf a ha) (span_wf b hb) (span_wf c hc) hab hbc
+  rw [inter_span a b ha hb, inter_span b c hb hc]
+  cases h1 : a.span.inter b.span with
+  | rect r1 =>
+    rw [h1] at s1 key
+    cases h2 : b.span.inter c.span with
+    | rect r2 =>
+      rw [h2] at s2 key
+      simp only [Res.andThen] at key ⊢
+      rw [hl r1 s1.1, hr' r2 s2.1]; exact key
+    | null =>
+      rw [h2] at key
+      simp only [Res.andThen] at key ⊢
+      rw [hl r1 s1.1]; exact key
+    | value => rw [h2] at s2; exact absurd s2 id
+  | null =>
+    rw [h1] at key
+    cases h2 : b.span.inter c.span with
+    | rect r2 =>
+      rw [h2] at s2 key
+      simp only [Res.andThen] at key ⊢
+      rw [hr' r2 s2.1]; exact key
+    | null => rfl
+    | value => rw [h2] at s2; exact absurd s2 id
+  | value => rw [h1] at s1; exact absurd s1 id
+
+/-- a bounded rectangle is never an "unbounded range", even when it spans every column or row of the sheet
+    (`A1:XFD1` enumerates its 16384 cells; the pinned code refused with an AssertionError) -/
+theorem C11_bounded_not_unbounded (r : Rect) (h : r.WF) : r.toAddr.isUnbounded = false := by
+  obtain ⟨h1, h2, h3, h4⟩ := h
+  have e1 : ¬ r.c1 = 0 := by omega
+  have e2 : ¬ r.r1 = 0 := by omega
+  have e3 : ¬ r.c2 = 0 := by omega
+  have e4 : ¬ r.r2 = 0 := by omega
+  simp [Addr.isUnbounded, Rect.toAddr, e1, e2, e3, e4]
+
+/-- … and a whole-row / whole-column range is one -/
+theorem C11_unbounded_side (a : Addr) (hr : a.isRange = true)
+    (h : a.rect.c1 = 0 ∨ a.rect.c2 = 0 ∨ a.rect.r1 = 0 ∨ a.rect.r2 = 0) : a.isUnbounded = true := by
+  simp only [Addr.isUnbounded, hr, Bool.true_and, Bool.or_eq_true, decide_eq_true_eq]
+  omega
+
 /-! ### the same laws at the level of the operators (`&`, `**` on address objects and error values) -/
 
 def Rect.op (i : Bool) (a b : Rect) : Res := if i then a.inter b else a.union b
@@ -470,6 +571,9 @@ theorem C11_offset_wrap_boundary :
 example : (⟨[], 2, 2, 3, 4⟩ : Rect).WF := by decide
 example : (⟨[], 2, 2, 3, 4⟩ : Rect).inter ⟨[], 3, 1, 5, 2⟩ = .rect ⟨[], 3, 2, 3, 2⟩ := by decide
 example : (⟨[], 1, 1, 1, 1⟩ : Rect).inter ⟨[], 2, 2, 2, 2⟩ = .null := by decide
+-- row 1 and the last cell of row 1 (the witness of the repaired off-by-one), whole rows against whole columns
+example : (⟨[], 0, 1, 0, 1⟩ : Rect).GWF ∧ (⟨[], 0, 1, 0, 1⟩ : Rect).inter ⟨[], 16384, 1, 16384, 1⟩ = .rect ⟨[], 16384, 1, 16384, 1⟩ := by decide
+example : (⟨[], 0, 1, 0, 3⟩ : Rect).inter ⟨[], 2, 0, 3, 0⟩ = .rect ⟨[], 2, 1, 3, 3⟩ := by decide
 example : (⟨[], 1, 1, 1, 1⟩ : Rect).union ⟨[], 3, 3, 3, 3⟩ = .rect ⟨[], 1, 1, 3, 3⟩ := by decide
 example : Addr.Printable ⟨true, ⟨"My Sheet".toList, 26, 9, 27, 10⟩⟩ := ⟨by decide, by decide, by decide, by decide, by decide⟩
 example : ExcelSheet "Bob's sheet".toList ∧ '!' ∉ "Bob's sheet".toList := by unfold ExcelSheet; decide
